@@ -21,6 +21,10 @@ class C18(Prop):
     level_note = "Lean kernel + standard axioms for checker / brute force; the partition algorithms are outside Lean"
     technique = "Lean-verified partition checker and brute-force minimum; differential correspondence"
     theorems = [
+        "PrefVerif.C12DP.partition_cert",
+        "PrefVerif.C12DP.partition_perm",
+        "PrefVerif.C12DP.partition_axes",
+        "PrefVerif.C12DP.partitionLoop_fuel",
         "PrefVerif.Specs.setPartitions_sound",
         "PrefVerif.Specs.setPartitions_complete",
         "PrefVerif.Specs.partitionCert_iff",
@@ -83,6 +87,7 @@ class C18(Prop):
             certs["axes"] = a[1]
         reqs.append({"op": "dom.nearly", "alts": case["alts"], "orders": [[[x] for x in o] for o in case["orders"]],
                      "brute": len(case["alts"]) <= 6, "certs": certs})
+        reqs.append({"op": "kalt.partition", "alts": case["alts"], "orders": case["orders"]})
         for k, r in obs["brute"].items():
             c = {"axes2": r[1]} if r[0] == "ok" and isinstance(r[1], list) else {}
             reqs.append({"op": "dom.nearly", "alts": case["alts"], "orders": [[[x] for x in o] for o in case["orders"]],
@@ -103,7 +108,14 @@ class C18(Prop):
             P(f"k_alt_partition_approx returned {a[1]}: not a partition of the alternatives into single-peaked axes",
               "approx/certificate")
         opt = rep0["minPartition"]
-        for (k, r), rep in zip(obs["brute"].items(), replies[1:]):
+        mp = replies[1]["axes"]
+        if a[0] == "ok" and isinstance(a[1], list):
+            if len(mp) != len(a[1]):
+                out.append(Problem("disagreement", case, f"model of k_alt_partition_approx gives {mp}, implementation {a[1]}",
+                                   "model/approx"))
+            elif mp != a[1]:
+                self.count("approx-drift")
+        for (k, r), rep in zip(obs["brute"].items(), replies[2:]):
             k = int(k)
             if r[0] != "ok" or r[1] == "malformed":
                 P(f"k_alternative_partition_brut_force(k={k}) failed: {r}", "brute/call")
